@@ -181,11 +181,11 @@ func findSegMetaFromTime(a *asset, rep *RepData, time uint64, cfg *ResponseConfi
 	timeAfterWrap := int(time) - wrapTime
 	idx := rep.findSegmentIndexFromTime(uint64(timeAfterWrap))
 	if idx == len(rep.Segments) {
-		return segMeta{}, fmt.Errorf("no matching segment")
+		return segMeta{}, fmt.Errorf("no matching segment: %w", errNotFound)
 	}
 	seg := rep.Segments[idx]
 	if seg.StartTime != uint64(timeAfterWrap) {
-		return segMeta{}, fmt.Errorf("segment time mismatch %d <-> %d", timeAfterWrap, seg.StartTime)
+		return segMeta{}, fmt.Errorf("segment time mismatch %d <-> %d: %w", timeAfterWrap, seg.StartTime, errNotFound)
 	}
 
 	// Check interval validity
@@ -216,7 +216,7 @@ func findRefSegMetaFromTime(a *asset, rep *RepData, time uint64, cfg *ResponseCo
 	}
 	sampleDur := *rep.ConstantSampleDuration
 	if time%uint64(sampleDur) != 0 {
-		return sm, fmt.Errorf("time must be multiple of sample duration")
+		return sm, fmt.Errorf("time must be multiple of sample duration: %w", errNotFound)
 	}
 	refRep := a.refRep
 	refTotDur := uint64(refRep.duration())
@@ -524,8 +524,8 @@ func findRepAndSegmentID(a *asset, segmentPart string) (r *RepData, segID int, e
 			return nil, -1, fmt.Errorf("bad segment match")
 		}
 		segID, err = strconv.Atoi(mParts[1])
-		if err != nil {
-			return nil, -1, err
+		if err != nil { // Only digits are matched, so the number is out of range
+			return nil, -1, fmt.Errorf("segment %s: %w", mParts[1], errNotFound)
 		}
 		return rep, segID, nil
 	}
